@@ -46,6 +46,7 @@ type Step struct {
 	Meta    []string `json:"meta,omitempty"`   // k=v
 	User    []int  `json:"user,omitempty"`     // user (priority) allocations
 	Origins int    `json:"origins,omitempty"`
+	OriginIx []int `json:"origin_ix,omitempty"` // explicit origin list (indices into a pool of 5 addresses)
 	Allocs  []int  `json:"allocs,omitempty"` // seeded allocations
 	Value   string `json:"value,omitempty"`
 	Valid   bool   `json:"valid,omitempty"`
@@ -245,8 +246,8 @@ func (h health) healthy() bool { return h.present && h.valid && h.fresh }
 func (h health) usable() bool  { return h.healthy() && h.numeric }
 
 func (w *world) healthOf(n *node, target int) health {
-	m := n.mon.Store().PeerLatest(informerName, w.allIDs[target])
-	if m == nil {
+	m, ok := n.mon.Recorded(informerName, w.allIDs[target])
+	if !ok {
 		return health{}
 	}
 	now := time.Now().UnixNano()
@@ -284,6 +285,19 @@ func (w *world) peersOf(ix []int) []peer.ID {
 }
 
 // ---------------------------------------------------------------- pin rendering / comparison
+
+// originList renders a list of origin indices (any order, any subset of a small pool).
+func originList(ix []int) []ma.Multiaddr {
+	var out []ma.Multiaddr
+	for _, i := range ix {
+		a, err := ma.NewMultiaddr(fmt.Sprintf("/ip4/192.168.1.%d/tcp/4001/p2p/%s", i+1, simkit.TestPeer(700+i).Pretty()))
+		if err != nil {
+			panic(err)
+		}
+		out = append(out, a)
+	}
+	return out
+}
 
 func originAddrs(n int) []ma.Multiaddr {
 	var out []ma.Multiaddr
